@@ -173,7 +173,7 @@ theorem stepF_spec (c : Cfg) (v P m : Rat) (f : F) (d : Int) (hb : Base v P m f)
     · have hp : f.s.pumpOn = false := by rw [hst, hs]
       rcases boff hs with ⟨d1, d2, d3, _⟩ | ⟨d1, d2, d3, _⟩
       · have e1 : (tick c (f.clock + d) f.s).pumpOn = true := by rw [a1, d1]
-        refine ⟨by rw [f4, hv], by rw [f3, hP], by rw [f2, hm], f1, ?_, ?_, ?_, ?_, ?_, ?_⟩
+        refine ⟨f4.trans hv, f3.trans hP, f2.trans hm, f1, ?_, ?_, ?_, ?_, ?_, ?_⟩
         · simp only [stepF]; rw [a1, a2, d1, d2]
         · simp only [stepF, hp, e1]; simp; omega
         · simp only [stepF, hp, e1]; simp; rw [a3, d3]; unfold constrain; grind
@@ -181,7 +181,7 @@ theorem stepF_spec (c : Cfg) (v P m : Rat) (f : F) (d : Int) (hb : Base v P m f)
         · simp only [stepF, hp, e1]; simp; omega
         · simp only [stepF, hp, e1]; simp; simp [hp] at hlen; omega
       · have e1 : (tick c (f.clock + d) f.s).pumpOn = false := by rw [a1, d1, hp]
-        refine ⟨by rw [f4, hv], by rw [f3, hP], by rw [f2, hm], f1, ?_, ?_, ?_, ?_, ?_, ?_⟩
+        refine ⟨f4.trans hv, f3.trans hP, f2.trans hm, f1, ?_, ?_, ?_, ?_, ?_, ?_⟩
         · simp only [stepF]; rw [a1, a2, d1, d2, hp]
         · simp only [stepF, hp, e1]; simp; omega
         · simp only [stepF, hp, e1]; simp; rw [a3, d3]; rfl
@@ -191,7 +191,7 @@ theorem stepF_spec (c : Cfg) (v P m : Rat) (f : F) (d : Int) (hb : Base v P m f)
     · have hp : f.s.pumpOn = true := by rw [hst, hs]
       rcases bon hs with ⟨d1, d2, d3, _⟩ | ⟨d1, d2, d3, _⟩
       · have e1 : (tick c (f.clock + d) f.s).pumpOn = false := by rw [a1, d1]
-        refine ⟨by rw [f4, hv], by rw [f3, hP], by rw [f2, hm], f1, ?_, ?_, ?_, ?_, ?_, ?_⟩
+        refine ⟨f4.trans hv, f3.trans hP, f2.trans hm, f1, ?_, ?_, ?_, ?_, ?_, ?_⟩
         · simp only [stepF]; rw [a1, a2, d1, d2]
         · simp only [stepF, hp, e1]; simp; omega
         · simp only [stepF, hp, e1]; simp; rw [a3, d3]; unfold constrain; grind
@@ -199,7 +199,7 @@ theorem stepF_spec (c : Cfg) (v P m : Rat) (f : F) (d : Int) (hb : Base v P m f)
         · simp only [stepF, hp, e1]; simp; omega
         · simp only [stepF, hp, e1]; simp; simp [hp] at hlen; omega
       · have e1 : (tick c (f.clock + d) f.s).pumpOn = true := by rw [a1, d1, hp]
-        refine ⟨by rw [f4, hv], by rw [f3, hP], by rw [f2, hm], f1, ?_, ?_, ?_, ?_, ?_, ?_⟩
+        refine ⟨f4.trans hv, f3.trans hP, f2.trans hm, f1, ?_, ?_, ?_, ?_, ?_, ?_⟩
         · simp only [stepF]; rw [a1, a2, d1, d2, hp]
         · simp only [stepF, hp, e1]; simp; omega
         · simp only [stepF, hp, e1]; simp; rw [a3, d3]; rfl
@@ -245,5 +245,472 @@ theorem stepF_spec (c : Cfg) (v P m : Rat) (f : F) (d : Int) (hb : Base v P m f)
       · rcases d4 with d4 | d4
         · right; exact d4
         · left; simpa using d4
+
+/-! ### runs -/
+
+theorem runF_cons (c : Cfg) (f : F) (d : Int) (ds : List Int) : runF c f (d :: ds) = runF c (stepF c f d) ds := rfl
+
+theorem capHit_mono (c : Cfg) (ds : List Int) : ∀ f : F, (runF c f ds).capHit = false → f.capHit = false := by
+  induction ds with
+  | nil => intro f h; exact h
+  | cons d ds ih =>
+    intro f h
+    have := ih _ h
+    simp only [stepF, Bool.or_eq_false_iff] at this
+    exact this.1
+
+/-- every gap of the run is within [0, Δ] -/
+def Gaps (Δ : Int) (ds : List Int) : Prop := ∀ d ∈ ds, 0 ≤ d ∧ d ≤ Δ
+
+instance (Δ : Int) (ds : List Int) : Decidable (Gaps Δ ds) := by unfold Gaps; infer_instance
+
+theorem base_run (c : Cfg) (v P m : Rat) (Δ : Int) (hP0 : 0 ≤ P) (ds : List Int) :
+    ∀ f : F, Base v P m f → Gaps Δ ds → Base v P m (runF c f ds) ∧ (runF c f ds).t0 = f.t0 := by
+  induction ds with
+  | nil => intro f h _; exact ⟨h, rfl⟩
+  | cons d ds ih =>
+    intro f h hg
+    obtain ⟨hb, _, ht, _⟩ := stepF_spec c v P m f d h (hg d (by simp)).1 hP0
+    have := ih _ hb (fun x hx => hg x (by simp [hx]))
+    rw [runF_cons]
+    exact ⟨this.1, this.2.trans ht⟩
+
+/-! ### the non-degenerate case 0 < dutyOn' < period -/
+
+/-- the phase in progress is not overdue, and every completed phase has the right length -/
+structure NonDeg (on P : Rat) (Δ : Int) (f : F) : Prop where
+  hoff : f.s.pumpOn = false → secs f.clock - secs f.phaseStart < P - on
+  hon : f.s.pumpOn = true → secs f.clock - secs f.phaseStart < on
+  hpulses : ∀ p ∈ f.pulses, on ≤ secs p ∧ secs p < on + secs Δ
+  hpauses : ∀ p ∈ f.pauses, P - on ≤ secs p ∧ secs p < P - on + secs Δ
+
+theorem nondeg_begin (on P : Rat) (Δ : Int) (s : PwmState) (t0 : Int) (h1 : on < P)
+    (hp : s.pumpOn = false) : NonDeg on P Δ (F.begin s t0) := by
+  refine ⟨?_, ?_, ?_, ?_⟩ <;> simp [F.begin, hp] <;> grind
+
+theorem nondeg_step (c : Cfg) (v P m : Rat) (Δ : Int) (f : F) (d : Int) (hb : Base v P m f)
+    (hn : NonDeg (dutyOn v P m) P Δ f) (hd0 : 0 ≤ d) (hdΔ : d ≤ Δ)
+    (h0 : 0 < dutyOn v P m) (h1 : dutyOn v P m < P) (hm : m ≤ dutyOn v P m)
+    (hcap : capAt (f.clock + d) f.s = false) : NonDeg (dutyOn v P m) P Δ (stepF c f d) := by
+  have hP0 : 0 ≤ P := by grind
+  obtain ⟨hb', hck, _, _, son, soff⟩ := stepF_spec c v P m f d hb hd0 hP0
+  obtain ⟨n1, n2, n3, n4⟩ := hn
+  have ho := hb.hord
+  have e1 := secs_mono ho.2
+  have e2 := secs_nonneg hd0
+  have e3 := secs_mono hdΔ
+  have e4 : secs (f.clock + d) = secs f.clock + secs d := secs_add _ _
+  have e5 : secs (f.clock + d - f.phaseStart) = secs (f.clock + d) - secs f.phaseStart := secs_sub _ _
+  have hD : dAt P f d = constrain (secs (f.clock + d) - secs f.phaseStart) 0 P := rfl
+  cases hp : f.s.pumpOn
+  · rcases soff hp with ⟨d1, d2, d3, d4, d5, d6, d7⟩ | ⟨d1, d2, d3, d4, d5⟩
+    · refine ⟨?_, ?_, ?_, ?_⟩
+      · intro h; rw [d1] at h; cases h
+      · intro _; rw [hck, d2]; grind
+      · rw [d3]; exact n3
+      · rw [d4]; intro p hp'
+        rcases List.mem_cons.mp hp' with rfl | hp'
+        · have := n1 hp
+          rw [hD] at d6
+          unfold constrain at d6
+          grind
+        · exact n4 p hp'
+    · refine ⟨?_, ?_, ?_, ?_⟩
+      · intro _; rw [hck, d2]
+        rcases d5 with d5 | d5
+        · rw [hcap] at d5; cases d5
+        · rw [hD] at d5; unfold constrain at d5; grind
+      · intro h; rw [d1] at h; cases h
+      · rw [d3]; exact n3
+      · rw [d4]; exact n4
+  · rcases son hp with ⟨d1, d2, _, d3, d4, d5⟩ | ⟨d1, d2, d3, d4, d5, d6⟩
+    · refine ⟨?_, ?_, ?_, ?_⟩
+      · intro _; rw [hck, d2]; grind
+      · intro h; rw [d1] at h; cases h
+      · rw [d3]; intro p hp'
+        rcases List.mem_cons.mp hp' with rfl | hp'
+        · have := n2 hp
+          rcases d5 with d5 | d5
+          · rw [hcap] at d5; cases d5
+          · rw [hD] at d5; unfold constrain at d5; grind
+        · exact n3 p hp'
+      · rw [d4]; exact n4
+    · refine ⟨?_, ?_, ?_, ?_⟩
+      · intro h; rw [d1] at h; cases h
+      · intro _; rw [hck, d2]
+        rw [hD] at d6; unfold constrain at d6; grind
+      · rw [d3]; exact n3
+      · rw [d4]; exact n4
+
+theorem nondeg_run (c : Cfg) (v P m : Rat) (Δ : Int) (h0 : 0 < dutyOn v P m) (h1 : dutyOn v P m < P)
+    (hm : m ≤ dutyOn v P m) (ds : List Int) :
+    ∀ f : F, Base v P m f → NonDeg (dutyOn v P m) P Δ f → Gaps Δ ds → (runF c f ds).capHit = false →
+      NonDeg (dutyOn v P m) P Δ (runF c f ds) := by
+  induction ds with
+  | nil => intro f _ h _ _; exact h
+  | cons d ds ih =>
+    intro f hb hn hg hc
+    rw [runF_cons] at hc ⊢
+    have hd := hg d (by simp)
+    have hP0 : 0 ≤ P := by grind
+    have hc1 := capHit_mono c ds _ hc
+    obtain ⟨hb', _, _, hcap, _⟩ := stepF_spec c v P m f d hb hd.1 hP0
+    rw [hcap, Bool.or_eq_false_iff] at hc1
+    exact ih _ hb' (nondeg_step c v P m Δ f d hb hn hd.1 hd.2 h0 h1 hm hc1.2)
+      (fun x hx => hg x (by simp [hx])) hc
+
+/-! ### sums of phase lengths -/
+
+theorem sum_bounds (lo hi : Rat) (l : List Int) (h : ∀ p ∈ l, lo ≤ secs p ∧ secs p < hi) :
+    (l.length : Rat) * lo ≤ secs l.sum ∧ secs l.sum ≤ (l.length : Rat) * hi ∧
+    (l ≠ [] → secs l.sum < (l.length : Rat) * hi) := by
+  induction l with
+  | nil => simp [secs_zero]
+  | cons p l ih =>
+    obtain ⟨i1, i2, _⟩ := ih (fun x hx => h x (by simp [hx]))
+    obtain ⟨p1, p2⟩ := h p (by simp)
+    have e : secs (p + l.sum) = secs p + secs l.sum := secs_add _ _
+    simp only [List.sum_cons, List.length_cons, ne_eq, reduceCtorEq, not_false_eq_true, forall_const]
+    rw [e]
+    refine ⟨?_, ?_, ?_⟩ <;> grind
+
+/-- the most recent do_run is a cycle boundary: it switched the pump off (or it is the one at `t0`) -/
+def AtBoundary (f : F) : Prop := f.s.pumpOn = false ∧ f.phaseStart = f.clock
+
+instance (f : F) : Decidable (AtBoundary f) := by unfold AtBoundary; infer_instance
+
+/-- (2): over a window of do_runs that starts and ends at a cycle boundary and contains n completed (pause, pulse)
+cycles, energised time within [n·on, n·(on+Δ)) and elapsed time within [n·P, n·(P+2Δ)). -/
+theorem cycles_bounds {v P m : Rat} {on : Rat} {Δ : Int} {f : F} (hb : Base v P m f) (hn : NonDeg on P Δ f)
+    (hat : AtBoundary f) :
+    ((f.pulses.length : Rat) * on ≤ secs f.onTime ∧ secs f.onTime ≤ (f.pulses.length : Rat) * (on + secs Δ) ∧
+      (f.pulses ≠ [] → secs f.onTime < (f.pulses.length : Rat) * (on + secs Δ))) ∧
+    ((f.pulses.length : Rat) * P ≤ secs (f.clock - f.t0) ∧
+      secs (f.clock - f.t0) ≤ (f.pulses.length : Rat) * (P + 2 * secs Δ) ∧
+      (f.pulses ≠ [] → secs (f.clock - f.t0) < (f.pulses.length : Rat) * (P + 2 * secs Δ))) := by
+  obtain ⟨hp, hps⟩ := hat
+  obtain ⟨a1, a2, a3⟩ := sum_bounds on (on + secs Δ) f.pulses hn.hpulses
+  obtain ⟨b1, b2, b3⟩ := sum_bounds (P - on) (P - on + secs Δ) f.pauses hn.hpauses
+  have e1 : f.onTime = f.pulses.sum := by have := hb.hon; simp [hp] at this; exact this
+  have e2 : f.clock - f.t0 = f.pulses.sum + f.pauses.sum := by have := hb.hel; omega
+  have e3 : f.pauses.length = f.pulses.length := by have := hb.hlen; simp [hp] at this; exact this
+  have e4 : f.pauses ≠ [] ↔ f.pulses ≠ [] := by
+    rw [← List.length_pos_iff, ← List.length_pos_iff, e3]
+  rw [e1, e2, secs_add]
+  rw [e3] at b1 b2 b3
+  refine ⟨⟨a1, a2, a3⟩, ?_, ?_, ?_⟩
+  · grind
+  · grind
+  · intro h; have := a3 h; have := b3 (e4.mpr h); grind
+
+/-- pure arithmetic behind (3): n ≥ 1 cycles with on-total A in [n·on, n·(on+δ)) and off-total B in [n·off, n·(off+δ))
+have on-fraction within δ/period of on/period -/
+theorem fraction_arith (n A B on off δ : Rat) (hn : 1 ≤ n) (hon : 0 < on) (hoff : 0 < off) (hδ : 0 ≤ δ)
+    (hA1 : n * on ≤ A) (hA2 : A < n * (on + δ)) (hB1 : n * off ≤ B) (hB2 : B < n * (off + δ)) :
+    A / (A + B) - on / (on + off) < δ / (on + off) ∧ on / (on + off) - A / (A + B) < δ / (on + off) := by
+  have hn0 : 0 ≤ n := by grind
+  have hP : 0 < on + off := by grind
+  have hnP : n * (on + off) ≤ A + B := by grind
+  have h1P : 1 * (on + off) ≤ n * (on + off) := Rat.mul_le_mul_of_nonneg_right hn (by grind)
+  have hT : 0 < A + B := by grind
+  have h1 : A * off < (n * (on + δ)) * off := Rat.mul_lt_mul_of_pos_right hA2 hoff
+  have h2 : on * (n * off) ≤ on * B := Rat.mul_le_mul_of_nonneg_left hB1 (by grind)
+  have h3 : δ * (n * (on + off)) ≤ δ * (A + B) := Rat.mul_le_mul_of_nonneg_left hnP hδ
+  have h4 : 0 ≤ δ * (n * on) := Rat.mul_nonneg hδ (Rat.mul_nonneg hn0 (by grind))
+  have h5 : 0 ≤ δ * (n * off) := Rat.mul_nonneg hδ (Rat.mul_nonneg hn0 (by grind))
+  have k1 : on * B < on * (n * (off + δ)) := Rat.mul_lt_mul_of_pos_left hB2 hon
+  have k2 : (n * on) * off ≤ A * off := Rat.mul_le_mul_of_nonneg_right hA1 (by grind)
+  have c1 : A * (on + off) < (on + δ) * (A + B) := by grind
+  have c2 : (on - δ) * (A + B) < A * (on + off) := by grind
+  have d1 : A / (A + B) < (on + δ) / (on + off) := by
+    rw [Rat.lt_div_iff hP]
+    have : A / (A + B) * (on + off) = (A * (on + off)) / (A + B) := by grind
+    rw [this, Rat.div_lt_iff hT]; exact c1
+  have d2 : (on - δ) / (on + off) < A / (A + B) := by
+    rw [Rat.div_lt_iff hP]
+    have : A / (A + B) * (on + off) = (A * (on + off)) / (A + B) := by grind
+    rw [this, Rat.lt_div_iff hT]; exact c2
+  have e1 : (on + δ) / (on + off) = on / (on + off) + δ / (on + off) := by grind
+  have e2 : (on - δ) / (on + off) = on / (on + off) - δ / (on + off) := by grind
+  constructor <;> grind
+
+/-- (3): on-fraction over such a window (n ≥ 1) within one maximal tick gap per period of dutyOn'/period -/
+theorem cycles_fraction {v P m : Rat} {on : Rat} {Δ : Int} {f : F} (hb : Base v P m f) (hn : NonDeg on P Δ f)
+    (hat : AtBoundary f) (h0 : 0 < on) (h1 : on < P) (hΔ : 0 ≤ Δ) (hne : f.pulses ≠ []) :
+    secs f.onTime / secs (f.clock - f.t0) - on / P < secs Δ / P ∧
+    on / P - secs f.onTime / secs (f.clock - f.t0) < secs Δ / P := by
+  obtain ⟨hp, hps⟩ := hat
+  obtain ⟨a1, _, a3⟩ := sum_bounds on (on + secs Δ) f.pulses hn.hpulses
+  obtain ⟨b1, _, b3⟩ := sum_bounds (P - on) (P - on + secs Δ) f.pauses hn.hpauses
+  have e1 : f.onTime = f.pulses.sum := by have := hb.hon; simp [hp] at this; exact this
+  have e2 : f.clock - f.t0 = f.pulses.sum + f.pauses.sum := by have := hb.hel; omega
+  have e3 : f.pauses.length = f.pulses.length := by have := hb.hlen; simp [hp] at this; exact this
+  have hne' : f.pauses ≠ [] := by
+    rw [← List.length_pos_iff, e3, List.length_pos_iff]; exact hne
+  have hlen : (1 : Rat) ≤ (f.pulses.length : Rat) := by
+    have : 1 ≤ f.pulses.length := List.length_pos_iff.mpr hne
+    have := Rat.natCast_le_natCast.mpr this
+    simpa using this
+  rw [e3] at b1 b3
+  have := fraction_arith (f.pulses.length : Rat) (secs f.pulses.sum) (secs f.pauses.sum) on (P - on) (secs Δ) hlen h0
+    (by grind) (secs_nonneg hΔ) a1 (a3 hne) b1 (b3 hne')
+  have eP : on + (P - on) = P := by grind
+  rw [eP] at this
+  rw [e1, e2, secs_add]
+  exact this
+
+/-! ### the degenerate cases -/
+
+/-- dutyOn' = 0: never on -/
+structure ZeroI (f : F) : Prop where
+  hp : f.s.pumpOn = false
+  hpl : f.pulses = []
+  hpa : f.pauses = []
+
+theorem zero_run (c : Cfg) (v P m : Rat) (Δ : Int) (hP0 : 0 ≤ P) (h0 : dutyOn v P m = 0) (ds : List Int) :
+    ∀ f : F, Base v P m f → ZeroI f → Gaps Δ ds → ZeroI (runF c f ds) := by
+  induction ds with
+  | nil => intro f _ h _; exact h
+  | cons d ds ih =>
+    intro f hb hz hg
+    obtain ⟨hb', _, _, _, _, soff⟩ := stepF_spec c v P m f d hb (hg d (by simp)).1 hP0
+    rw [runF_cons]
+    refine ih _ hb' ?_ (fun x hx => hg x (by simp [hx]))
+    rcases soff hz.hp with ⟨_, _, _, _, _, _, d7⟩ | ⟨d1, _, d3, d4, _⟩
+    · rw [h0] at d7; exact absurd (by grind) d7
+    · exact ⟨d1, d3.trans hz.hpl, d4.trans hz.hpa⟩
+
+/-- dutyOn' = period: on from the second do_run on, for ever -/
+structure FullI (Δ : Int) (f : F) : Prop where
+  hpl : f.pulses = []
+  hoff : f.s.pumpOn = false → f.clock = f.t0 ∧ f.pauses = []
+  hsum : 0 ≤ f.pauses.sum ∧ f.pauses.sum ≤ Δ
+
+theorem full_step (c : Cfg) (v P m : Rat) (Δ : Int) (f : F) (d : Int) (hb : Base v P m f) (hf : FullI Δ f)
+    (hd0 : 0 ≤ d) (hdΔ : d ≤ Δ) (hP : 0 < P) (h1 : dutyOn v P m = P)
+    (hcap : capAt (f.clock + d) f.s = false) : FullI Δ (stepF c f d) ∧ (stepF c f d).s.pumpOn = true := by
+  have hP0 : 0 ≤ P := by grind
+  obtain ⟨hb', hck, ht0, _, son, soff⟩ := stepF_spec c v P m f d hb hd0 hP0
+  obtain ⟨g1, g2, g3⟩ := hf
+  have hD := (constrain_bounds (secs (f.clock + d) - secs f.phaseStart) 0 P hP0).1
+  cases hp : f.s.pumpOn
+  · obtain ⟨k1, k2⟩ := g2 hp
+    have ho := hb.hord
+    rcases soff hp with ⟨d1, d2, d3, d4, _⟩ | ⟨_, _, _, _, d5⟩
+    · refine ⟨⟨d3.trans g1, ?_, ?_⟩, d1⟩
+      · intro h; rw [d1] at h; cases h
+      · rw [d4, k2]; simp; omega
+    · rcases d5 with d5 | d5
+      · rw [hcap] at d5; cases d5
+      · rw [h1] at d5; unfold dAt at d5; exact absurd ⟨by grind, by grind⟩ d5
+  · rcases son hp with ⟨_, _, _, _, _, d5⟩ | ⟨d1, d2, d3, d4, _⟩
+    · rcases d5 with d5 | d5
+      · rw [hcap] at d5; cases d5
+      · exact absurd h1 d5.2.2
+    · refine ⟨⟨d3.trans g1, ?_, ?_⟩, d1⟩
+      · intro h; rw [d1] at h; cases h
+      · rw [d4]; exact g3
+
+theorem full_run (c : Cfg) (v P m : Rat) (Δ : Int) (hP : 0 < P) (h1 : dutyOn v P m = P) (ds : List Int) :
+    ∀ f : F, Base v P m f → FullI Δ f → Gaps Δ ds → (runF c f ds).capHit = false →
+      FullI Δ (runF c f ds) ∧ (ds ≠ [] ∨ f.s.pumpOn = true → (runF c f ds).s.pumpOn = true) := by
+  induction ds with
+  | nil => intro f _ h _ _; exact ⟨h, fun h' => h'.elim (fun x => absurd rfl x) id⟩
+  | cons d ds ih =>
+    intro f hb hf hg hc
+    rw [runF_cons] at hc ⊢
+    have hd := hg d (by simp)
+    have hP0 : 0 ≤ P := by grind
+    have hc1 := capHit_mono c ds _ hc
+    obtain ⟨hb', _, _, hcap, _⟩ := stepF_spec c v P m f d hb hd.1 hP0
+    rw [hcap, Bool.or_eq_false_iff] at hc1
+    obtain ⟨s1, s2⟩ := full_step c v P m Δ f d hb hf hd.1 hd.2 hP h1 hc1.2
+    obtain ⟨r1, r2⟩ := ih _ hb' s1 (fun x hx => hg x (by simp [hx])) hc
+    exact ⟨r1, fun _ => r2 (Or.inr s2)⟩
+
+theorem full_bounds {v P m : Rat} {Δ : Int} {f : F} (hb : Base v P m f) (hf : FullI Δ f) :
+    f.clock - f.t0 - Δ ≤ f.onTime ∧ f.onTime ≤ f.clock - f.t0 := by
+  obtain ⟨g1, g2, g3⟩ := hf
+  have e1 := hb.hon
+  have e2 := hb.hel
+  rw [g1] at e1 e2
+  cases hp : f.s.pumpOn
+  · obtain ⟨k1, k2⟩ := g2 hp
+    simp [hp] at e1
+    omega
+  · simp [hp] at e1
+    simp at e2
+    omega
+
+/-! ### a sufficient condition for "the security cap is not reached" -/
+
+theorem tick_sec (c : Cfg) (t : Int) (l : Rat) (s : PwmState) (hl : s.last = some l) :
+    (tick c t s).sec.delay = s.sec.delay ∧
+    (((tick c t s).sec.last = some t ∧
+        (tick c t s).sec.duration = (s.sec.update t (if s.state then 1 else 0)).duration) ∨
+      ((tick c t s).sec.last = none ∧ (tick c t s).sec.duration = 0)) := by
+  obtain ⟨_, b2, b3, _, bon, boff⟩ := block_spec t l s
+  unfold tick dailyReset
+  rw [hl]
+  simp only []
+  split
+  · exact ⟨by simpa [Timer.reset] using b2, Or.inr ⟨rfl, rfl⟩⟩
+  · refine ⟨b2, Or.inl ⟨b3, ?_⟩⟩
+    cases hs : s.state
+    · simp only [Bool.false_eq_true, if_false]
+      rw [(boff hs).1]
+      simp only [Timer.update]; cases s.sec.last <;> simp
+    · simp only [if_true]; exact (bon hs).1
+
+/-- the security timer's reference instant is the most recent do_run (or none) and its count is not negative -/
+def SecOK (f : F) : Prop := (f.s.sec.last = none ∨ f.s.sec.last = some f.clock) ∧ 0 ≤ f.s.sec.duration
+
+theorem nocap_run (c : Cfg) (v P m : Rat) (Δ : Int) (hP0 : 0 ≤ P) (ds : List Int) :
+    ∀ f : F, Base v P m f → SecOK f → Gaps Δ ds → f.s.sec.duration + ds.sum < f.s.sec.delay →
+      (runF c f ds).capHit = f.capHit := by
+  induction ds with
+  | nil => intro f _ _ _ _; rfl
+  | cons d ds ih =>
+    intro f hb ⟨hs1, hs2⟩ hg hbud
+    have hd := hg d (by simp)
+    have hg' : Gaps Δ ds := fun x hx => hg x (by simp [hx])
+    have hsum : 0 ≤ ds.sum := by
+      clear ih hbud hg
+      induction ds with
+      | nil => simp
+      | cons x xs ih2 =>
+        have := hg' x (by simp)
+        have := ih2 (fun y hy => hg' y (by simp [hy]))
+        simp only [List.sum_cons]; omega
+    simp only [List.sum_cons] at hbud
+    obtain ⟨hb', hck, _, hcap, _⟩ := stepF_spec c v P m f d hb hd.1 hP0
+    obtain ⟨t1, t2⟩ := tick_sec c (f.clock + d) _ f.s hb.hlast
+    have hupd : f.s.sec.duration ≤ (f.s.sec.update (f.clock + d) (if f.s.state then 1 else 0)).duration ∧
+        (f.s.sec.update (f.clock + d) (if f.s.state then 1 else 0)).duration ≤ f.s.sec.duration + d := by
+      simp only [Timer.update]
+      rcases hs1 with h | h <;> rw [h] <;> cases f.s.state <;> simp <;> omega
+    have hno : capAt (f.clock + d) f.s = false := by
+      unfold capAt; rw [hb.hlast]; simp only [Timer.elapsed, decide_eq_false_iff_not]
+      have : (f.s.sec.update (f.clock + d) (if f.s.state then 1 else 0)).delay = f.s.sec.delay := rfl
+      rw [this]; omega
+    rw [runF_cons, ih _ hb' ?_ hg' ?_, hcap, hno, Bool.or_false]
+    · show ((tick c (f.clock + d) f.s).sec.last = none ∨ (tick c (f.clock + d) f.s).sec.last = some (stepF c f d).clock) ∧
+        0 ≤ (tick c (f.clock + d) f.s).sec.duration
+      rw [hck]
+      rcases t2 with ⟨u1, u2⟩ | ⟨u1, u2⟩
+      · exact ⟨Or.inr u1, by rw [u2]; omega⟩
+      · exact ⟨Or.inl u1, by rw [u2]; omega⟩
+    · show (tick c (f.clock + d) f.s).sec.duration + ds.sum < (tick c (f.clock + d) f.s).sec.delay
+      rw [t1]
+      rcases t2 with ⟨_, u2⟩ | ⟨_, u2⟩ <;> rw [u2] <;> omega
+
+/-! ### wall-clock windows [t0, t0 + n·period] -/
+
+/-- energised µs within [t0, x] for an instant `x` between the most recent do_run and the next one -/
+def onUpTo (f : F) (x : Int) : Int := f.onTime + (if f.s.pumpOn then x - f.clock else 0)
+
+theorem nat_succ_le_of_mul {a b : Nat} {P e : Rat} (hP : 0 < P) (he : 0 < e) (h : (a : Rat) * P + e ≤ (b : Rat) * P) :
+    (a : Rat) + 1 ≤ (b : Rat) := by
+  rcases Nat.lt_or_ge a b with hab | hab
+  · have h1 : a + 1 ≤ b := hab
+    have := Rat.natCast_le_natCast.mpr h1
+    grind
+  · have := Rat.natCast_le_natCast.mpr hab
+    have := Rat.mul_le_mul_of_nonneg_right this (Rat.le_of_lt hP)
+    grind
+
+theorem nat_le_of_mul {a b : Nat} {P e : Rat} (hP : 0 < P) (he : 0 ≤ e) (h : (a : Rat) * P + e ≤ (b : Rat) * P) :
+    (a : Rat) ≤ (b : Rat) := Rat.le_of_mul_le_mul_right (by grind) hP
+
+/-- Over the wall-clock window [t0, x] with x - t0 ≤ n·period (x not later than the next do_run, which comes within Δ of
+the most recent one): the pump is energised for at most n·(on+Δ) and de-energised for at most n·(off+Δ). -/
+theorem wall_bounds {v P m : Rat} {on : Rat} {Δ : Int} {f : F} (hb : Base v P m f) (hn : NonDeg on P Δ f)
+    (h0 : 0 < on) (h1 : on < P) (x : Int) (hx0 : f.clock ≤ x) (hx1 : x ≤ f.clock + Δ) (n : Nat)
+    (hw : secs (x - f.t0) ≤ (n : Rat) * P) :
+    secs (onUpTo f x) ≤ (n : Rat) * (on + secs Δ) ∧
+    secs (x - f.t0 - onUpTo f x) ≤ (n : Rat) * (P - on + secs Δ) := by
+  obtain ⟨a1, a2, _⟩ := sum_bounds on (on + secs Δ) f.pulses hn.hpulses
+  obtain ⟨b1, b2, _⟩ := sum_bounds (P - on) (P - on + secs Δ) f.pauses hn.hpauses
+  have hP : 0 < P := by grind
+  have hΔ : 0 ≤ Δ := by omega
+  have hδ := secs_nonneg hΔ
+  have e2 : x - f.t0 = f.pulses.sum + f.pauses.sum + (x - f.phaseStart) := by have := hb.hel; omega
+  have hr0 : 0 ≤ secs (x - f.phaseStart) := secs_nonneg (by have := hb.hord; omega)
+  have hr1 : secs (x - f.phaseStart) ≤ secs f.clock - secs f.phaseStart + secs Δ := by
+    have : x - f.phaseStart ≤ (f.clock - f.phaseStart) + Δ := by omega
+    have h' := secs_mono this
+    have e : secs (f.clock - f.phaseStart + Δ) = secs f.clock - secs f.phaseStart + secs Δ := by
+      rw [secs_add, secs_sub]
+    rw [e] at h'; exact h'
+  have hw' : secs f.pulses.sum + secs f.pauses.sum + secs (x - f.phaseStart) ≤ (n : Rat) * P := by
+    rw [e2, secs_add, secs_add] at hw; exact hw
+  have hn0 : (0 : Rat) ≤ (n : Rat) := Rat.natCast_nonneg
+  cases hp : f.s.pumpOn
+  · have e1 : onUpTo f x = f.pulses.sum := by
+      have := hb.hon; simp [hp] at this; simp [onUpTo, hp, this]
+    have e3 : f.pauses.length = f.pulses.length := by have := hb.hlen; simp [hp] at this; exact this
+    have e4 : x - f.t0 - onUpTo f x = f.pauses.sum + (x - f.phaseStart) := by rw [e1]; omega
+    rw [e3] at b1 b2
+    have hk : (f.pulses.length : Rat) ≤ (n : Rat) :=
+      nat_le_of_mul (e := secs (x - f.phaseStart)) hP hr0 (by grind)
+    have m1 := Rat.mul_le_mul_of_nonneg_right hk (show 0 ≤ on + secs Δ by grind)
+    have m2 := Rat.mul_le_mul_of_nonneg_right hk (show 0 ≤ P - on + secs Δ by grind)
+    have hage := hn.hoff hp
+    rw [e4, e1, secs_add]
+    refine ⟨by grind, ?_⟩
+    rcases Nat.lt_or_ge f.pulses.length n with hlt | hge
+    · have h1' : f.pulses.length + 1 ≤ n := hlt
+      have c1 := Rat.natCast_le_natCast.mpr h1'
+      have m3 := Rat.mul_le_mul_of_nonneg_right c1 (show 0 ≤ P - on + secs Δ by grind)
+      grind
+    · have c1 := Rat.natCast_le_natCast.mpr hge
+      have m3 := Rat.mul_le_mul_of_nonneg_right c1 (Rat.le_of_lt hP)
+      grind
+  · have e1 : onUpTo f x = f.pulses.sum + (x - f.phaseStart) := by
+      have := hb.hon; simp [hp] at this; simp [onUpTo, hp, this]; omega
+    have e3 : f.pauses.length = f.pulses.length + 1 := by have := hb.hlen; simp [hp] at this; exact this
+    have e4 : x - f.t0 - onUpTo f x = f.pauses.sum := by rw [e1]; omega
+    have e5 : (f.pauses.length : Rat) = (f.pulses.length : Rat) + 1 := by rw [e3]; grind
+    rw [e5] at b1 b2
+    have hk : (f.pulses.length : Rat) + 1 ≤ (n : Rat) :=
+      nat_succ_le_of_mul (e := P - on) hP (by grind) (by grind)
+    have m1 := Rat.mul_le_mul_of_nonneg_right hk (show 0 ≤ on + secs Δ by grind)
+    have m2 := Rat.mul_le_mul_of_nonneg_right hk (show 0 ≤ P - on + secs Δ by grind)
+    have hage := hn.hon hp
+    rw [e4, e1, secs_add]
+    constructor <;> grind
+
+/-! ### all duties: the three cases of a run from a cycle boundary -/
+
+theorem dutyOn_cases (v P m : Rat) (hv0 : 0 ≤ v) (hv1 : v ≤ 1) (hm0 : 0 ≤ m) (hm : m ≤ P) :
+    dutyOn v P m = 0 ∨ dutyOn v P m = P ∨ (0 < dutyOn v P m ∧ dutyOn v P m < P ∧ m ≤ dutyOn v P m) := by
+  have := dutyOn_range v P m hv0 hv1 hm0 hm
+  grind
+
+theorem full_nonneg {v P m : Rat} {Δ : Int} {f : F} (hb : Base v P m f) (hf : FullI Δ f) : 0 ≤ f.onTime := by
+  have e1 := hb.hon
+  have := hb.hord
+  rw [hf.hpl] at e1
+  cases hp : f.s.pumpOn <;> simp [hp] at e1 <;> omega
+
+theorem run_cases (c : Cfg) (v P m : Rat) (Δ : Int) (s : PwmState) (t0 : Int) (ds : List Int)
+    (hs : Boundary v P m s t0) (hv0 : 0 ≤ v) (hv1 : v ≤ 1) (hP : 0 < P) (hm0 : 0 ≤ m) (hm : m ≤ P) (hΔ : 0 ≤ Δ)
+    (hg : Gaps Δ ds) (hcap : (runF c (F.begin s t0) ds).capHit = false) :
+    Base v P m (runF c (F.begin s t0) ds) ∧ (runF c (F.begin s t0) ds).t0 = t0 ∧
+    ((dutyOn v P m = 0 ∧ ZeroI (runF c (F.begin s t0) ds)) ∨
+     (dutyOn v P m = P ∧ FullI Δ (runF c (F.begin s t0) ds) ∧
+        (ds ≠ [] → (runF c (F.begin s t0) ds).s.pumpOn = true)) ∨
+     (0 < dutyOn v P m ∧ dutyOn v P m < P ∧ NonDeg (dutyOn v P m) P Δ (runF c (F.begin s t0) ds))) := by
+  have hP0 : 0 ≤ P := Rat.le_of_lt hP
+  have hb0 := base_begin hs hP0
+  obtain ⟨hb, ht⟩ := base_run c v P m Δ hP0 ds _ hb0 hg
+  refine ⟨hb, ht, ?_⟩
+  rcases dutyOn_cases v P m hv0 hv1 hm0 hm with h | h | ⟨h0, h1, h2⟩
+  · exact Or.inl ⟨h, zero_run c v P m Δ hP0 h ds _ hb0 ⟨hs.hpump, rfl, rfl⟩ hg⟩
+  · obtain ⟨r1, r2⟩ := full_run c v P m Δ hP h ds _ hb0
+      ⟨rfl, fun _ => ⟨rfl, rfl⟩, by simp [F.begin]; exact hΔ⟩ hg hcap
+    exact Or.inr (Or.inl ⟨h, r1, fun hne => r2 (Or.inl hne)⟩)
+  · exact Or.inr (Or.inr ⟨h0, h1, nondeg_run c v P m Δ h0 h1 h2 ds _ hb0
+      (nondeg_begin _ P Δ s t0 h1 hs.hpump) hg hcap⟩)
 
 end Poupool.Pwm
